@@ -91,7 +91,7 @@ for (n, m, tier) in ((0, 0, 'quick'), (1, 0, 'thorough'), (1, 1, 'quick'), (6, 2
                      (64, 17, 'deep'), (64, 20, 'deep')):
     add(P, 'set_queries', n, m, tier, cap=900)
     if n <= 64 or m <= 2:
-        add(P, 'set_iters', n, m, tier if m <= 4 else 'thorough', cap=900)
+        add(P, 'set_iters', n, m, tier if m <= 4 else 'deep', cap=900)
 for (n, m, tier) in ((0, 0, 'quick'), (5, 0, 'thorough'), (3, 1, 'quick'), (6, 2, 'deep'), (12, 3, 'deep'), (5, 5, 'deep'), (16, 2, 'deep')):
     add(P, 'set_bits', n, m, tier, mem=28)
 
